@@ -232,7 +232,19 @@ func addVirtualTableHelper(vTableMap map[string]struct{}, orgid int64) (bool, er
 	return true, nil
 }
 
+// IsValidIndexName reports whether name can be used as an index name. Index and alias names become directory and
+// file names below the data directory, so a path separator or a "." / ".." name would address another location.
+func IsValidIndexName(name string) bool {
+	if name == "." || name == ".." {
+		return false
+	}
+	return !strings.ContainsAny(name, "/\\")
+}
+
 func AddVirtualTable(tname *string, orgid int64) error {
+	if tname == nil || !IsValidIndexName(*tname) {
+		return fmt.Errorf("AddVirtualTable: invalid index name")
+	}
 	vTableMap := make(map[string]struct{})
 	vTableMap[*tname] = struct{}{}
 
@@ -388,6 +400,14 @@ func AddAliases(indexName string, aliases []string, orgid int64) error {
 	if alLen == 0 {
 		log.Errorf("AddAliases: len of aliases is 0. len(aliases)=%v", alLen)
 		return errors.New("len of aliases is 0")
+	}
+	if !IsValidIndexName(indexName) {
+		return errors.New("invalid index name")
+	}
+	for _, alias := range aliases {
+		if !IsValidIndexName(alias) {
+			return errors.New("invalid alias name")
+		}
 	}
 
 	currentAliases, err := GetAliases(indexName, orgid)
